@@ -55,14 +55,14 @@ theorem final_eq {st : St} (hF : Final st) (j : Nat) (hj : j < st.cons.size)
       rw [heq] at this; exact absurd this (by simp)
   exact ⟨hact, tightActive_of_inv hF.inv _ (getElem!_mem' _ j hj) hact⟩
 
-theorem final_eq_positions {st : St} (hF : Final st) (hsc : ∀ i : Nat, (st.vars[i]!).scale ≠ 0)
+theorem final_eq_positions {st : St} (hF : Final st) (hsc : ∀ i : Nat, i < st.vars.size → (st.vars[i]!).scale ≠ 0)
     (j : Nat) (hj : j < st.cons.size)
     (heq : (st.cons[j]!).eq = true) (hun : (st.cons[j]!).unsat = false) :
     slackAt st.vars st.positions (st.cons[j]!) = 0 := by
   obtain ⟨_, ht⟩ := final_eq hF j hj heq hun
   unfold slackAt
   rw [positions_get st _ (hF.inv.l_lt j hj), positions_get st _ (hF.inv.r_lt j hj),
-    scale_mul_pos st _ (hsc _), scale_mul_pos st _ (hsc _)]
+    scale_mul_pos st _ (hsc _ (hF.inv.l_lt j hj)), scale_mul_pos st _ (hsc _ (hF.inv.r_lt j hj))]
   linarith
 
 end AdaptaVerif.Lemmas.VpscFinal
